@@ -760,10 +760,13 @@ func (w *response) WriteMsg(m *Msg) (err error) {
 	var data []byte
 	if w.tsigProvider != nil { // if no provider, dont check for the tsig (which is a longer check)
 		if t := m.IsTsig(); t != nil {
-			data, w.tsigRequestMAC, err = TsigGenerateWithProvider(m, w.tsigProvider, w.tsigRequestMAC, w.tsigTimersOnly)
+			var mac string
+			data, mac, err = TsigGenerateWithProvider(m, w.tsigProvider, w.tsigRequestMAC, w.tsigTimersOnly)
 			if err != nil {
+				// Nothing was signed: the MAC the next message has to cover is still the one we hold.
 				return err
 			}
+			w.tsigRequestMAC = mac
 			_, err = w.writer.Write(data)
 			return err
 		}
